@@ -438,8 +438,6 @@ def writer_ops(base, o, ses, ans, after):
     """two model ops for a session that appended: the writer model's records for the data points
     the harness printed (numbered by the model's plan), and the classification of the appended text"""
     before = ses['before']
-    if base.profile:
-        return None      # the writer model renders measurement lines; profile files: loader side only
     if ans['end'] != 'ok' or not after.startswith(before) or len(after) == len(before):
         return None
     names = base.params['benchmarks']
@@ -451,6 +449,13 @@ def writer_ops(base, o, ses, ans, after):
         if not plan.get(r):
             return None          # reported by the comparison of started invocations
         inv = plan[r].pop(0)
+        if base.profile:
+            # one line per invocation: numIterations = 1, the JSON column as the real file has it
+            js = [d['json'] for d in dd.parse_file(after) if d['kind'] == 'prof' and d['serial'] == st['dps'][0][0][1]]
+            if len(js) != 1:
+                return None
+            dps.append([r, r, inv, 1, [], js[0]])
+            continue
         for it, dp in enumerate(st['dps']):
             dps.append([r, r, inv, it + 1, [[c, '%d.000000' % s] for (c, s) in dp[:-1]], '%d.000000' % dp[-1][1]])
     op1 = {'op': 'c09.session', 'benches': ans['benches'], 'runs': ans['runs'],
@@ -463,7 +468,7 @@ def writer_ops(base, o, ses, ans, after):
     bp, rp = dd.payload_tables(dd.parse_file(after), lambda o: names.index(o['name']) if o['name'] in names else 99,
                                lambda o: names.index(o['cmdline'].split()[-1]) if o['cmdline'].split()[-1] in names else 99)
     op3 = {'op': 'c09.render', 'benches': ans['benches'], 'runs': ans['runs'], 'empty': before == '',
-           'cmd': alines[0][2:], 'hdr': dd.HDR, 'comments': alines[1:4], 'dps': dps,
+           'cmd': alines[0][2:], 'hdr': dd.HDR, 'comments': alines[1:4], 'dps': dps, 'profile': base.profile,
            'cols': [[i, [b, 'E', 'S', '', '1', '', '', '', '']] for i, b in enumerate(names)],
            'units': [['total', 'ms']] + [['c%d' % c, 'kb'] for c in range(3)],
            'bench_json': [[k, pj] for (pj, k) in bp], 'run_json': [[k, bid, pj] for (pj, k, bid) in rp]}
